@@ -345,3 +345,19 @@ pub struct OnCallback<'info> {
     /// CHECK: this is just a placeholder.
     pub action: UncheckedAccount<'info>,
 }
+
+/// Verification hooks (visibility shims only).
+#[cfg(gmsol_verif)]
+pub mod verif {
+    use super::*;
+
+    /// See `OnExecuted::update_leaderboard`.
+    pub fn update_leaderboard(comp: &mut Competition, part: &Participant) {
+        OnExecuted::update_leaderboard(comp, part)
+    }
+
+    /// See `OnExecuted::extend_competition_time`.
+    pub fn extend_competition_time(comp: &mut Competition, part: &Participant, volume: u128) -> Result<()> {
+        OnExecuted::extend_competition_time(comp, part, volume)
+    }
+}
